@@ -217,6 +217,17 @@ CHECKS.update({
         design='DESIGN.md §4 C06', engine='enumvals'),
 })
 
+CHECKS.update({
+    'C19': dict(
+        technique='exhaustive differential enumeration of task shapes x mock/parameter assignments: create_test_task / TestChain vs a generated real chain',
+        text='Every task shape with 0-2 inputs (by class / by name), 0-2 parameters (required, defaulted, parameter object, chain-aware parameter object) and run by arguments or by registry '
+             'access, crossed with mock values {0, "", [1], {"a": None}, None, "v"} per input and parameters given or omitted, is evaluated through create_test_task and through TestChain (mocks '
+             'keyed by class or by name) and through a generated real chain whose upstream tasks are constant tasks returning exactly the mock values. Values must agree type-strictly, mocked '
+             'tasks must return the supplied value, never run and leave nothing on disk, and a missing input or required parameter must be reported by the constructor.',
+        note='Mock value None has no real-chain counterpart and is compared with the directly computed expectation.',
+        design='DESIGN.md §4 C19', engine='c19'),
+})
+
 PENDING_REASON = 'check not built yet in this round (planned per DESIGN.md §4; technique applies)'
 
 
